@@ -264,7 +264,7 @@ func c19diff(c *Ctx) {
 		}
 		var retained []kept
 		keep := func(op string, b []byte, str string) {
-			e := kept{op: op, step: len(hist), b: b, s: str, snap: str}
+			e := kept{op: op, step: len(hist), b: b, s: str, snap: string(append([]byte(nil), str...))} // a COPY: a string that aliases the buffer would change together with a snapshot that shares its bytes
 			if b != nil {
 				e.snap = string(b)
 			}
